@@ -182,6 +182,21 @@ def run(ctx):
             vs.append(('extra-parens', add(proggen.pp(root, rnd), store, inp), False))
             vs.append(('pure-side-effect-blocks', add(proggen.pp(add_pure_blocks(rnd, root)), store, inp), False))
         groups.append((base, vs, src))
+    # pure side-effect blocks whose bodies CREATE constants (a number, a text, a list, a symbol): every value created afterwards
+    # sits at a different address in the data object — the result may not depend on that (hash-placed association tables, interned
+    # constants, symbol tables); bases are look-ups by key and by index into lists with unit / keyed / nested items
+    bases2 = ['(:a = 10, (), :b = 20).b', '(:a = 10, (), :b = 20).a', '(:a = 10, (), :b = 20).c', '((), :k = 1, (), :j = 2, ()).j', '(1, :k = (), 3).k', '(:a = 1, :b = 2, :c = 3, :d = 4, :e = 5).e',
+              '(:a = 10, (), :b = 20) . 1', '((:a = 1, ()) <> ((), :b = 2)).b', '((:a = 1, ()) <> ((), :b = 2)).a', '{ b } <~ (:a = 10, (), :b = 20)', '(:a = (:b = (), :c = 7), ()).a.c', ':x == :x', '"ab" == "ab"', '(1 2 ()) == (1 2 ())',
+              '(:a = 10, $!, :b = 20).b', '(:a = 10, $?, (), :b = 20).a']
+    bodies2 = ['77', '"zz"', '1 2', ':q', '7 8 9, 10', '()', '$ $']
+    for b_ in bases2:
+        for st_ in progsuite.STORES:
+            base = add(b_, st_, '-')
+            vs = []
+            for body in bodies2:
+                vs.append(('constant-creating-pure-block', add(b_ + ' [' + body + ']', st_, '-'), False))
+                vs.append(('constant-creating-pure-block', add('5 [' + body + '] ; ' + b_, st_, '-'), False)) if False else None
+            groups.append((base, vs, b_))
     if pending:
         pl = vlib.run_impl([['LEX', 'v%d' % k, vlib.esc(p[2])] for k, p in enumerate(pending)], 'c18lexv', per_case_s=5.0)
         napp = 0
@@ -215,7 +230,7 @@ def run(ctx):
             elif same_stream and impl.get(vdump) != bd:
                 ctx.fail('oracle', cases[int(vdump)], impl=impl.get(vdump), model=None, expect=bd, note=f'rewrite `{kind}` changed the built instruction stream (the parse tree differs by more than trivia); original source {src!r}')
     ctx.rule = ('every generated core-language program (small-exhaustive + random) x rewrites: add a space / a tab to an existing whitespace token (every position for small programs), double all spaces, insert an annotation or a comment line where whitespace is, add spaces/tabs before and inside a blank line, leading / trailing whitespace, pairs of positions rewritten together (an indented line followed later by a line with trailing blanks, and the reverse) and random combinations of all whitespace forms over all positions, a space added or removed on either side of a binary operator or comma where the edit leaves the tokens unchanged (checked by lexing the variant), a space or tab just inside a bracket where none was (after `(` `[` `{`, before `)` `]` `}`), the same rewrites on programs that carry pure side-effect blocks after atoms and in front of operands, '
-                'wrap complete operands in parentheses (printer option), hang pure side-effect blocks on atoms; oracle: identical result value and host-call trace, and for whitespace/annotation rewrites an identical built instruction stream; distinct = distinct (rewrite kind, rewritten source).')
+                'wrap complete operands in parentheses (printer option), hang pure side-effect blocks on atoms, and pure blocks whose bodies create constants (shifting the addresses of everything created later) after look-ups by key / index into lists with unit, keyed and nested items; oracle: identical result value and host-call trace, and for whitespace/annotation rewrites an identical built instruction stream; distinct = distinct (rewrite kind, rewritten source).')
     ctx.suites = {'RUN+DUMP': len(cases), 'rewrites': kinds, 'operator-spacing edits skipped because they change the tokens': skipped_not_applicable}
     ctx.distribution = progsuite.feature_distribution([p for p in progs if p[2] is not None])
     for (bid, bdump), vs, src in groups[:: max(1, len(groups) // 5)][:5]:
